@@ -35,7 +35,9 @@ REAL_STUB = {
                   'calendar date (propka.output.date)',
                   'I/O faults at io.open/builtins.open',
                   'crashes (SimCrash raised from sys.settrace line events)',
-                  'allocator/gc stimulus, cwd and decoy files, argv'],
+                  'allocator/gc stimulus, cwd and decoy files, argv',
+                  'process environment of the worker (HOME with decoy configuration files, TZ, LC_ALL, '
+                  'PROPKA_* variables); the reference runs in the canonical environment'],
     'stub': [],
 }
 
@@ -235,6 +237,8 @@ class Agg:
         self.state_windows += st.get('state_windows', 0)
         self.aimed += st.get('aimed_crashes', 0)
         self.arms[job['arm']] = self.arms.get(job['arm'], 0) + 1
+        if job['mode'].get('env'):
+            self.env_varied = getattr(self, 'env_varied', 0) + 1
         self.notes.update(res['notes'])
         self.hashseeds.add(res['hashseed'])
         for e in res['events']:
@@ -531,6 +535,7 @@ def main(argv=None):
                 'distinct_coupled_system_orders': len(agg.orders),
                 'perturbations': agg.perturb, 'call_kinds': agg.call_kinds,
                 'arms': agg.arms, 'distinct_hash_seeds': len(agg.hashseeds),
+                'histories_with_varied_process_environment': getattr(agg, 'env_varied', 0),
                 'reference_computations': agg.refs,
                 'census_passes': agg.census, 'traced_line_events': agg.line_events,
                 'in_flight_state_windows_seen': agg.state_windows,
